@@ -3,9 +3,17 @@
 //   mend:i:v endModify().insert(v)   iaft:i:k:v / idel:i:k (iterator at element k: insertAfter / deleteNext)
 //   asg:i  L_i = L_{1-i}   self:i  L_i = L_i   cpy:i  L_{1-i} = SLList(L_i)
 // observation per step: size,empty[elements] for both lists, then (L0==L1)(L0!=L1)
+// With -DC11_DEEP -fno-access-control (OPTIONAL build; see arraylist.cc) the private members are read instead; observation per step, for both lists:
+//   (tail_ is the last node reachable from beforeHead_)(size_ == number of reachable nodes)
 #include <config.h>
-#include <dune/common/sllist.hh>
 #include "c11_common.hh"
+#include <memory>
+#include <cassert>
+#include <ostream>
+#include <iterator>
+#include <type_traits>
+#include <utility>
+#include <dune/common/sllist.hh>
 
 #ifdef C11_SL_DEFAULT_ALLOC
 using SL = Dune::SLList<int>;                 // default allocator: needs push_front to compile (see probe_sllist.cc)
@@ -63,6 +71,20 @@ static void run(const std::vector<std::string>& ops)
     else if (t[0] == "self") { SL& alias = L[i]; l = alias; }
     else if (t[0] == "cpy") { SL tmp(l); if (!(tmp == l) || tmp != l) flags += "!cpy"; L[1 - i] = tmp; }
     else { c11::step_done("UNKNOWN-OP"); continue; }
+#ifdef C11_DEEP
+    {
+      std::string dp;
+      for (int q = 0; q < 2; ++q) {
+        auto* e = &L[q].beforeHead_; int n = 0;
+        while (e->next_) { e = e->next_; ++n; }
+        if (q) dp += " ";
+        dp += (e == L[q].tail_) ? "1" : "0";
+        dp += (n == L[q].size_) ? "1" : "0";
+      }
+      c11::step_done(dp);
+      continue;
+    }
+#endif
     // mutable iteration sees the same as const iteration
     for (int q = 0; q < 2; ++q) {
       std::vector<int> a, b;
